@@ -465,6 +465,14 @@ func runC08(c *Ctx, r *Report) {
 	// ---- R-C08.8: accessors of the entry and clock types agree with their fields
 	r.Doc("R-C08.10", "the clock survives normalisation and copying unchanged: NewLamportClock stores its arguments as they are and CopyLamportClock takes both parts of every clock that exists")
 	clockValueObject(c, r, "R-C08.10")
+	r.Doc("R-C08.11", "no slice on the paths that build the signed and encoded form of an entry comes from a third-party function that yields it in map iteration order (the dependency's source is examined): the same logical entry always encodes to the same identifier")
+	{
+		var roots []*Fn
+		for _, t := range []struct{ pkg, recv, name string }{{"entry", "", "CreateEntryWithIO"}, {"entry", "Entry", "Copy"}, {"entry", "", "Normalize"}, {"io/jsonable", "", "ToJsonableEntry"}, {"io/cbor", "IOCbor", "PreSign"}, {"io/cbor", "IOCbor", "Write"}, {"", "IPFSLog", "ToJSONLog"}, {"", "IPFSLog", "Append"}} {
+			roots = append(roots, p.FuncI(t.pkg, t.recv, t.name))
+		}
+		noOrderFromDependencyMaps(c, r, "R-C08.11", roots)
+	}
 	r.Doc("R-C08.9", "what was written with a link key reads back with it: the sealed-box object holds its own copy of the key (adopted from C18)")
 	importRules(c, r, "C18", []string{"R-C18.9"}, "R-C08.9")
 	r.Doc("R-C08.8", "every setter of the entry and clock types stores its argument in the field its getter returns (the readers fill entries through setters, the writers read them through getters)")
